@@ -66,8 +66,8 @@ const wait = 3 * time.Second
 func replay(b *Behaviour, rep *Report) {
 	sem := core.NewResourceSemaphore(b.Max, core.DefaultResourceFormatter("units"))
 	returns := make(chan ret, 64)
-	var pending []req           // requests issued and not yet returned, in issue order
-	held := map[int]int64{}     // c -> amount acquired
+	var pending []req       // requests issued and not yet returned, in issue order
+	held := map[int]int64{} // c -> amount acquired
 	var sumHeld int64
 	viol := func(i int, kind, format string, a ...interface{}) {
 		rep.Violations = append(rep.Violations, Finding{b.Id, i, kind, fmt.Sprintf(format, a...)})
